@@ -53,7 +53,7 @@ RULE = (
     "tick(TTL)/tick(TTL+1)/reap(/drain/shutdown) on two real sticky apps with a shared key; in every new canonical state "
     "sessions are opened by 4 identities (anonymous, d/alice, d/bob, ''/anonymous); every minted token is presented x {A,B} x identities (the same 4 quick; 6 thorough: + d2/alice, d/alice\\0x) x {call, DELETE}; "
     "token mutations (every bit of the sealed bytes, every prefix truncation, char drop/append/replace) in all states of depth <=1 (quick, "
-    "one flip per byte + all truncations under the owner pair, sparse set under the others) / <=2 (thorough, full set under the owner pair, one flip per byte + all truncations under the other identities on the minting worker, sparse set on the other worker); "
+    "one flip per byte + all truncations under the owner pair, sparse set under the others) / <=2 (thorough, full set under the owner pair, one flip per byte + all truncations under the other identities on the minting worker at depth 1, sparse set otherwise); "
     "non-trivial class = (token status, same-worker, same-identity, op, observed outcome)"
 )
 LEVEL_TEXT = (
@@ -451,7 +451,7 @@ class Checker:
                             if ctx.quick:
                                 level = "perbyte" if owner else "sparse"
                             else:
-                                level = "full" if owner else ("perbyte" if wn == t["w"] else "sparse")
+                                level = "full" if owner else ("perbyte" if wn == t["w"] and len(hist) <= 1 else "sparse")
                             # variant *names* are positional; the string is re-derived from the token of the
                             # current build (a rebuild re-mints the token with a fresh nonce)
                             names = [n for n, _ in variants_by_name(w.tokens[k]["tok"], level)]
